@@ -1,6 +1,7 @@
 package main
 
 import (
+	"crypto/sha256"
 	"encoding/json"
 	"fmt"
 	"os"
@@ -9,6 +10,7 @@ import (
 	"sort"
 	"strings"
 	"sync"
+	"time"
 )
 
 // selfTest (thorough tier): tests the checker both ways. Every seeded change under /verif/seeded whose
@@ -113,6 +115,269 @@ func runOneSeed(c *Ctx, self, seedDir, seed string) selfTestResult {
 		res.Failing = res.Failing[:4]
 	}
 	return res
+}
+
+// selfTestBenign (thorough tier): the other direction. Every behaviour-preserving refactoring kept under
+// /verif/refactorings (written by independent sub-agents) and an alpha-renamed copy of the tree (every local
+// identifier renamed by selftest/alpharename) is checked with this same binary: the check must stay quiet.
+// An alarm there is a defect of the checker; it is printed (SELFTEST-FALSE-ALARM) and recorded in the evidence,
+// it does not change the exit code.
+func selfTestBenign(c *Ctx) []selfTestResult {
+	dir := filepath.Join(c.Verif, "refactorings")
+	ents, _ := os.ReadDir(dir)
+	var ids []string
+	for _, e := range ents {
+		if e.IsDir() {
+			if _, err := os.Stat(filepath.Join(dir, e.Name(), "patch.diff")); err == nil {
+				ids = append(ids, e.Name())
+			}
+		}
+	}
+	sort.Strings(ids)
+	ids = append(ids, "alpha-rename-all-locals")
+	self, err := os.Executable()
+	if err != nil {
+		return nil
+	}
+	// the verdicts of all properties on one variant come from one run (-prop all); they are memoised under
+	// /verif/.cache keyed by the content of /repo's Go sources, this binary, the tables, the known findings and the
+	// variants, so the 20 thorough commands share the work. Any change of any input gives a new key.
+	key := benignKey(c, self, dir, ids)
+	cacheFile := filepath.Join(c.Verif, ".cache", "benign-"+key+".json")
+	all := map[string]map[string]selfTestResult{}
+	if b, err := os.ReadFile(cacheFile); err == nil {
+		json.Unmarshal(b, &all)
+	}
+	if len(all) != len(ids) {
+		// one computation at a time: a concurrent thorough run of another property waits for the result
+		os.MkdirAll(filepath.Dir(cacheFile), 0o755)
+		lock := cacheFile + ".lock"
+		for i := 0; ; i++ {
+			lf, err := os.OpenFile(lock, os.O_CREATE|os.O_EXCL|os.O_WRONLY, 0o644)
+			if err == nil {
+				lf.Close()
+				defer os.Remove(lock)
+				break
+			}
+			if st, e2 := os.Stat(lock); e2 == nil && time.Since(st.ModTime()) > 90*time.Minute {
+				os.Remove(lock) // stale
+				continue
+			}
+			time.Sleep(10 * time.Second)
+			if b, err := os.ReadFile(cacheFile); err == nil {
+				json.Unmarshal(b, &all)
+				if len(all) == len(ids) {
+					break
+				}
+			}
+			if i > 720 {
+				break
+			}
+		}
+	}
+	if len(all) != len(ids) {
+		all = map[string]map[string]selfTestResult{}
+		var mu sync.Mutex
+		var wg sync.WaitGroup
+		sem := make(chan struct{}, 6)
+		for _, id := range ids {
+			wg.Add(1)
+			go func(id string) {
+				defer wg.Done()
+				sem <- struct{}{}
+				defer func() { <-sem }()
+				r := runOneBenign(c, self, dir, id)
+				mu.Lock()
+				all[id] = r
+				mu.Unlock()
+			}(id)
+		}
+		wg.Wait()
+		os.MkdirAll(filepath.Dir(cacheFile), 0o755)
+		if b, err := json.Marshal(all); err == nil {
+			tmp := cacheFile + fmt.Sprintf(".%d", os.Getpid())
+			if os.WriteFile(tmp, b, 0o644) == nil {
+				os.Rename(tmp, cacheFile)
+			}
+		}
+	}
+	var results []selfTestResult
+	for _, id := range ids {
+		r, ok := all[id][c.R.Prop]
+		// a refactoring that moves a listed (genuine) finding to a new construct is expected to be reported there
+		if ok && r.Result == "ALARM" {
+			if b, err := os.ReadFile(filepath.Join(dir, id, "meta.json")); err == nil {
+				var m struct {
+					Moves []string `json:"moves_known_finding"`
+				}
+				if json.Unmarshal(b, &m) == nil {
+					for _, p := range m.Moves {
+						if p == c.R.Prop {
+							r.Result = "skipped(the variant moves a listed known finding of this property to a new construct: reported there, as intended)"
+						}
+					}
+				}
+			}
+		}
+		if !ok {
+			r = all[id]["*"]
+			if r.Seed == "" {
+				r = selfTestResult{Seed: id, Result: "skipped(no result)"}
+			}
+		}
+		results = append(results, r)
+	}
+	return results
+}
+
+func benignKey(c *Ctx, self, dir string, ids []string) string {
+	h := sha256.New()
+	add := func(path string) {
+		if b, err := os.ReadFile(path); err == nil {
+			fmt.Fprintf(h, "%s\x00%d\x00", path, len(b))
+			h.Write(b)
+		}
+	}
+	filepath.WalkDir(c.Repo, func(path string, d os.DirEntry, err error) error {
+		if err != nil {
+			return nil
+		}
+		if d.IsDir() {
+			if d.Name() == ".git" {
+				return filepath.SkipDir
+			}
+			return nil
+		}
+		if strings.HasSuffix(path, ".go") || strings.HasSuffix(path, "go.mod") || strings.HasSuffix(path, "go.sum") {
+			add(path)
+		}
+		return nil
+	})
+	add(self)
+	add(filepath.Join(c.Verif, "known_findings.json"))
+	tabs, _ := filepath.Glob(filepath.Join(c.Verif, "tables", "*.json"))
+	sort.Strings(tabs)
+	for _, t := range tabs {
+		add(t)
+	}
+	for _, id := range ids {
+		add(filepath.Join(dir, id, "patch.diff"))
+	}
+	add(filepath.Join(c.Verif, "selftest", "alpharename", "main.go"))
+	return fmt.Sprintf("%x", h.Sum(nil))[:20]
+}
+
+// runOneBenign applies one behaviour-preserving variant to a scratch copy and runs every property's check on it;
+// the result maps property id -> verdict ("*" = a verdict that holds for every property, e.g. skipped)
+func runOneBenign(c *Ctx, self, dir, id string) map[string]selfTestResult {
+	whole := func(msg string) map[string]selfTestResult {
+		return map[string]selfTestResult{"*": {Seed: id, Result: msg}}
+	}
+	tmp, err := os.MkdirTemp("", "zncheck-benign-")
+	if err != nil {
+		return whole("skipped(no scratch dir)")
+	}
+	defer os.RemoveAll(tmp)
+	repoCopy := filepath.Join(tmp, "repo")
+	verifCopy := filepath.Join(tmp, "verif")
+	if out, err := exec.Command("cp", "-r", c.Repo, repoCopy).CombinedOutput(); err != nil {
+		return whole("skipped(copy failed: " + strings.TrimSpace(string(out)) + ")")
+	}
+	os.RemoveAll(filepath.Join(repoCopy, ".git"))
+	os.MkdirAll(verifCopy, 0o755)
+	exec.Command("cp", "-r", filepath.Join(c.Verif, "tables"), verifCopy).Run()
+	exec.Command("cp", filepath.Join(c.Verif, "known_findings.json"), verifCopy).Run()
+	env := append(os.Environ(), "GOFLAGS=-mod=mod", "GOPROXY=off", "GOSUMDB=off", "GOTOOLCHAIN=local", "GOWORK=off", "ZNCHECK_NO_SELFTEST=1", "GOMAXPROCS=4")
+	if id == "alpha-rename-all-locals" {
+		tool := filepath.Join(c.Verif, "bin", "alpharename")
+		if _, err := os.Stat(tool); err != nil {
+			b := exec.Command("go", "build", "-o", tool, ".")
+			b.Dir = filepath.Join(c.Verif, "selftest", "alpharename")
+			b.Env = env
+			if out, err := b.CombinedOutput(); err != nil {
+				return whole("skipped(cannot build alpharename: " + oneLine(string(out)) + ")")
+			}
+		}
+		args := []string{"-dir", repoCopy}
+		for _, r := range corePkgs {
+			args = append(args, "./"+r)
+		}
+		rn := exec.Command(tool, args...)
+		rn.Dir = repoCopy
+		rn.Env = env
+		if out, err := rn.CombinedOutput(); err != nil {
+			return whole("skipped(alpharename failed: " + oneLine(string(out)) + ")")
+		}
+		rs := exec.Command(tool, "-dir", repoCopy, "-goos", "darwin", "./pkg/server")
+		rs.Dir = repoCopy
+		rs.Env = env
+		rs.Run()
+	} else {
+		ap := exec.Command("git", "apply", "--whitespace=nowarn", filepath.Join(dir, id, "patch.diff"))
+		ap.Dir = repoCopy
+		if out, err := ap.CombinedOutput(); err != nil {
+			return whole("skipped(patch does not apply to the current tree: " + oneLine(string(out)) + ")")
+		}
+	}
+	cmd := exec.Command(self, "-repo", repoCopy, "-verif", verifCopy, "-prop", "all", "-tier", "quick")
+	cmd.Env = env
+	out, _ := cmd.CombinedOutput()
+	res := map[string]selfTestResult{}
+	var ids []string
+	for p := range props {
+		ids = append(ids, p)
+	}
+	for _, p := range ids {
+		res[p] = selfTestResult{Seed: id, Result: "skipped(no verdict line)"}
+	}
+	for _, l := range strings.Split(string(out), "\n") {
+		if strings.HasPrefix(l, "== ") {
+			f := strings.Fields(l)
+			if len(f) > 1 {
+				r := selfTestResult{Seed: id, Result: "quiet"}
+				if !strings.HasSuffix(strings.TrimSpace(l), " 0 failing") {
+					r.Result = "ALARM"
+				}
+				res[f[1]] = r
+			}
+		}
+	}
+	for _, l := range strings.Split(string(out), "\n") {
+		if !strings.HasPrefix(l, "FAIL ") {
+			continue
+		}
+		i, j := strings.Index(l, "["), strings.Index(l, " at ")
+		if i < 0 || j < i {
+			continue
+		}
+		rule := l[i+1:]
+		if k := strings.Index(rule, "."); k > 0 {
+			p := rule[:k]
+			r := res[p]
+			if len(r.Failing) < 4 {
+				r.Failing = append(r.Failing, strings.TrimSpace(strings.Replace(l[i:j], repoCopy+"/", "", -1)))
+			}
+			r.Result = "ALARM"
+			res[p] = r
+		}
+	}
+	return res
+}
+
+func printSelfTestBenign(rs []selfTestResult) (quiet, alarms, skipped int) {
+	for _, r := range rs {
+		switch {
+		case r.Result == "quiet":
+			quiet++
+		case r.Result == "ALARM":
+			alarms++
+			fmt.Printf("SELFTEST-FALSE-ALARM: behaviour-preserving variant %s makes this check report %s\n", r.Seed, strings.Join(r.Failing, " "))
+		default:
+			skipped++
+		}
+	}
+	fmt.Printf("   selftest (benign variants): %d behaviour-preserving variants: %d quiet, %d alarms, %d skipped\n", len(rs), quiet, alarms, skipped)
+	return
 }
 
 func printSelfTest(rs []selfTestResult) (detected, missed, skipped int) {
